@@ -51,6 +51,10 @@ EXPLANATION += (
     ' Round 5: a sorted row request is un-sorted before every return (R-PERM/unsort-before-return).'
 )
 
+EXPLANATION += (
+    ' Round 6: cached readers are keyed by all they were built from (R-MEMO/key-complete); no HDF5 name is created twice in a group (R-TYPESTATE/h5-name-once, finding F8).'
+)
+
 RULE_TEXT = (
     "one obligation per step / chunk-extent site, per range relation of "
     "the dispatch loop, per piece-list mutation, per dispatcher x member")
@@ -77,6 +81,24 @@ def check(ctx):
     check_index_spaces(ctx)
     check_unsort(ctx)
     check_tiles(ctx, ANCHOR_MODULES, floor=8)
+    # readers / iterators that are kept for re-use are keyed by all they
+    # were built from (sa/rules/nodekeys.py, R-MEMO/key-complete)
+    from ..rules.nodekeys import check_memo_keys
+    n_memo = 0
+    for fi_ in ctx.db.iter_functions():
+        if fi_.module.short.startswith(tuple(ANCHOR_MODULES)):
+            n_memo += check_memo_keys(ctx, fi_)
+    ctx.ok('R-MEMO/key-complete', 'reshaping modules', 'package',
+           f'{n_memo} memoised store(s) in the reshaping modules examined',
+           nontrivial=False)
+    from ..rules.h5names import check_h5_names_created_once
+    n_h5 = 0
+    for fi_ in ctx.db.iter_functions():
+        if fi_.module.short.startswith(tuple(ANCHOR_MODULES)):
+            n_h5 += check_h5_names_created_once(ctx, fi_)
+    ctx.ok('R-TYPESTATE/h5-name-once', 'reshaping modules', 'package',
+           f'{n_h5} creations of HDF5 names followed along the control '
+           'flow', nontrivial=n_h5 > 0)
     from .C05 import sweep_generic_rules
     sweep_generic_rules(ctx, ANCHOR_MODULES)
 
